@@ -57,7 +57,7 @@ func init() {
 			"'not counted towards a batch they do not belong to' is judged by outcome: with need(i) = max(0, increment(i) - #live update-revision pods correctly labelled (this rollout-id, i)) for the batches 1..currentBatch+1 and candidates = live update-revision pods not carrying this rollout-id, the pass must newly label at least min(candidates, sum need(i)) pods (any distribution over batches, order-insensitive); fewer means some budget was consumed by a pod that does not belong to the batch. This is also what the readiness gate needs (labelled >= planned). Not applied when the rollback filter legitimately withholds no-need-update pods",
 			"batch-id strings such as \"01\" or \"+1\" (numeric but not canonical) are not generated: the statement does not say which batch they belong to",
 			"only batch labels (rollout-id, rollout-batch-id) are judged; the controller-revision-hash the patcher adds to ReplicaSet-owned pods of any revision is bookkeeping, except that passes 2 and 3 must not write it again either",
-			"a revision label in long form (<name>-<hash>) against a short update revision is not generated (does not occur: Deployment revisions are short on both sides, CloneSet/StatefulSet revisions long on the workload side); distinct revisions have equal-length hashes, so no revision is a strict suffix of a different one",
+			"a revision label in long form (<name>-<hash>) against a short update revision is not generated (does not occur: Deployment revisions are short on both sides, CloneSet/StatefulSet revisions long on the workload side); distinct revisions have equal-length hashes, except that in a quarter of the Deployment cases the old ReplicaSet's pod-template-hash is \"6\" + <update revision> (the update revision is a proper suffix of an old pod's hash; the opposite direction - a pod hash that is a proper suffix of the update revision - is accepted by the unchanged code and not generated)",
 			"secondary (readiness gate, switchable by c12ReadyGate): after pass 1 the context is rebuilt from the store (updated / updated-ready counts = the live update-revision pods of the case) and the real IsBatchReady is asked; it may report ready only if at least planned(currentBatch) live pods (any revision) carry this rollout-id with a batch-id 1..n",
 		},
 		NumCases: func(env *core.Env) int {
@@ -249,7 +249,10 @@ func strpOf(m map[string]string, k string) *string {
 	return nil
 }
 
-func execute(s caseSpec) *outcome {
+func execute(s caseSpec) *outcome { return executeK(s, kcmHash) }
+
+// executeK: kcm = pod-template-hash of the ReplicaSets by revision (see caseSpec.SuffixOld).
+func executeK(s caseSpec, kcm map[string]string) *outcome {
 	o := &outcome{counters: map[string]int64{}}
 	n := len(s.Batches)
 	truth := map[string]podSpec{}
@@ -260,10 +263,11 @@ func execute(s caseSpec) *outcome {
 	rsUID := map[string]types.UID{}
 	if s.Owner == "Deployment" {
 		for _, rev := range []string{"new", "old", "foreign"} {
-			rs := &appsv1.ReplicaSet{ObjectMeta: metav1.ObjectMeta{Namespace: c12NS, Name: c12Workload + "-" + kcmHash[rev], UID: types.UID("uid-rs-" + rev),
-				Labels: map[string]string{"app": c12Workload, appsv1.DefaultDeploymentUniqueLabelKey: kcmHash[rev]}}}
-			rs.Spec.Selector = &metav1.LabelSelector{MatchLabels: map[string]string{"app": c12Workload, appsv1.DefaultDeploymentUniqueLabelKey: kcmHash[rev]}}
+			rs := &appsv1.ReplicaSet{ObjectMeta: metav1.ObjectMeta{Namespace: c12NS, Name: c12Workload + "-" + kcm[rev], UID: types.UID("uid-rs-" + rev),
+				Labels: map[string]string{"app": c12Workload, appsv1.DefaultDeploymentUniqueLabelKey: kcm[rev]}}}
+			rs.Spec.Selector = &metav1.LabelSelector{MatchLabels: map[string]string{"app": c12Workload, appsv1.DefaultDeploymentUniqueLabelKey: kcm[rev]}}
 			rs.Spec.Template = rsTemplate(rev, true)
+			rs.Spec.Template.Labels[appsv1.DefaultDeploymentUniqueLabelKey] = kcm[rev]
 			rsUID[rev] = rs.UID
 			objs = append(objs, rs)
 		}
@@ -276,8 +280,8 @@ func execute(s caseSpec) *outcome {
 		full := c12Workload + "-" + revHash[p.Rev]
 		switch s.Owner {
 		case "Deployment":
-			pod.OwnerReferences = []metav1.OwnerReference{{APIVersion: "apps/v1", Kind: "ReplicaSet", Name: c12Workload + "-" + kcmHash[p.Rev], UID: rsUID[p.Rev], Controller: &isTrue, BlockOwnerDeletion: &isTrue}}
-			pod.Labels[appsv1.DefaultDeploymentUniqueLabelKey] = kcmHash[p.Rev]
+			pod.OwnerReferences = []metav1.OwnerReference{{APIVersion: "apps/v1", Kind: "ReplicaSet", Name: c12Workload + "-" + kcm[p.Rev], UID: rsUID[p.Rev], Controller: &isTrue, BlockOwnerDeletion: &isTrue}}
+			pod.Labels[appsv1.DefaultDeploymentUniqueLabelKey] = kcm[p.Rev]
 		case "CloneSet":
 			pod.OwnerReferences = []metav1.OwnerReference{{APIVersion: "apps.kruise.io/v1alpha1", Kind: "CloneSet", Name: c12Workload, UID: "uid-cloneset", Controller: &isTrue, BlockOwnerDeletion: &isTrue}}
 		default:
@@ -316,13 +320,17 @@ func execute(s caseSpec) *outcome {
 	if s.Owner == "Deployment" {
 		// status.updateRevision of a Deployment release = hash of the Deployment's template (no pod-template-hash label) as the controller reads it from the store
 		rs := &appsv1.ReplicaSet{}
-		if err := inner.Get(context.Background(), types.NamespacedName{Namespace: c12NS, Name: c12Workload + "-" + kcmHash["new"]}, rs); err != nil {
+		if err := inner.Get(context.Background(), types.NamespacedName{Namespace: c12NS, Name: c12Workload + "-" + kcm["new"]}, rs); err != nil {
 			o.harness = "cannot read back ReplicaSet: " + err.Error()
 			return o
 		}
 		tmpl := rs.Spec.Template.DeepCopy()
 		delete(tmpl.Labels, appsv1.DefaultDeploymentUniqueLabelKey)
 		updateRevision = util.ComputeHash(tmpl, nil)
+		if s.SuffixOld && kcm["old"] == kcmHash["old"] {
+			k2 := map[string]string{"new": kcm["new"], "foreign": kcm["foreign"], "old": "6" + updateRevision}
+			return executeK(s, k2)
+		}
 		// pods that were already given a controller-revision-hash by an earlier pass carry the hash of their own ReplicaSet
 		for _, p := range s.Pods {
 			if p.Form != "rs+crh" {
@@ -332,7 +340,7 @@ func execute(s caseSpec) *outcome {
 			if p.Rev != "new" {
 				t := rsTemplate(p.Rev, false)
 				rs2 := &appsv1.ReplicaSet{}
-				if err := inner.Get(context.Background(), types.NamespacedName{Namespace: c12NS, Name: c12Workload + "-" + kcmHash[p.Rev]}, rs2); err == nil {
+				if err := inner.Get(context.Background(), types.NamespacedName{Namespace: c12NS, Name: c12Workload + "-" + kcm[p.Rev]}, rs2); err == nil {
 					t = *rs2.Spec.Template.DeepCopy()
 					delete(t.Labels, appsv1.DefaultDeploymentUniqueLabelKey)
 				}
